@@ -931,8 +931,9 @@ class Curve(SplineGeometry):
     def reverse(self):
         """ Reverses the curve """
         self._control_points = list(reversed(self._control_points))
-        max_k = self.knotvector[-1]
-        new_kv = [max_k - k for k in self.knotvector]
+        # Reflect the knots on the range of the knot vector (which starts at 0 only if the knot vector is normalized)
+        sum_k = self.knotvector[0] + self.knotvector[-1]
+        new_kv = [sum_k - k for k in self.knotvector]
         self._knot_vector[0] = list(reversed(new_kv))
         self.reset(evalpts=True)
 
